@@ -2,6 +2,8 @@
 // usage: xai prog.bc scenario.json > result.json
 #include "xai_models.h"
 #include "llvm/IR/IntrinsicInst.h"
+#include "llvm/IR/Dominators.h"
+#include "llvm/Analysis/LoopInfo.h"
 #include "llvm/IR/LLVMContext.h"
 #include "llvm/IRReader/IRReader.h"
 #include "llvm/Support/MemoryBuffer.h"
@@ -49,9 +51,51 @@ Val getVal(State &S, const Value *V) {
 }
 
 static void setReg(State &S, const Value *V, const Val &v) { S.stack.back().regs[V] = v; }
+static void defReg(State &S, const Value *V, const Val &v) { Frame &F = S.stack.back(); F.regs[V] = v; ++F.ver[V]; }
+
+// two abstract values known to describe the same concrete value: keep the more precise of each component
+static Val meetVal(const Val &a, const Val &b) {
+  if (a.k != b.k) return a;
+  Val r = a;
+  if (a.k == Val::INT && a.w == b.w) {
+    ConstantRange x = a.r.intersectWith(b.r);
+    if (!x.isEmptySet()) { r.r = x; r.kb = rangeKB(x); }
+    if (b.hascs) { if (r.hascs) { auto c = r.cs & b.cs; if (c.any()) r.cs = c; } else { r.hascs = true; r.cs = b.cs; } }
+    if (r.root < 0 && b.root >= 0) { r.root = b.root; r.rk = b.rk; }
+    r.prov |= b.prov;
+  } else if (a.k == Val::PTR && a.reg == b.reg) {
+    ConstantRange x = a.r.intersectWith(b.r);
+    if (!x.isEmptySet()) r.r = x;
+    if (r.root < 0 && b.root >= 0) { r.root = b.root; r.rk = b.rk; }
+    r.maybenull = a.maybenull && b.maybenull;
+  }
+  return r;
+}
+
+// definition of a pure instruction: intersect with an earlier structurally identical computation on the same operand versions
+static void defPure(State &S, const Instruction *I, Val v) {
+  Frame &F = S.stack.back();
+  const Value *a = I->getNumOperands() > 0 ? I->getOperand(0) : nullptr, *b = I->getNumOperands() > 1 ? I->getOperand(1) : nullptr;
+  unsigned opc = I->getOpcode();
+  if (auto *ic = dyn_cast<ICmpInst>(I)) opc = 1000 + ic->getPredicate();
+  bool ok = I->getNumOperands() <= 2 && (a == nullptr || !isa<Constant>(a) || true);
+  unsigned va = a && !isa<Constant>(a) ? F.ver[a] : 0, vb = b && !isa<Constant>(b) ? F.ver[b] : 0;
+  unsigned vi = ++F.ver[I];
+  if (ok && (isa<BinaryOperator>(I) || isa<CastInst>(I))) {
+    if (isa<CastInst>(I)) opc = opc * 131 + I->getType()->getTypeID() * 7 + (I->getType()->isIntegerTy() ? I->getType()->getIntegerBitWidth() : 0);
+    auto key = std::make_tuple(opc, a, b);
+    auto it = F.cse.find(key);
+    if (it != F.cse.end()) {
+      const Value *prev; unsigned pa, pb, pi; std::tie(prev, pa, pb, pi) = it->second;
+      if (prev != I && pa == va && pb == vb && F.ver[prev] == pi) { auto r = F.regs.find(prev); if (r != F.regs.end()) v = meetVal(v, r->second); }
+    }
+    F.cse[key] = std::make_tuple((const Value *)I, va, vb, vi);
+  }
+  F.regs[I] = v;
+}
 
 void finishCall(State &S, const CallBase *CB, const Val &ret) {
-  if (!CB->getType()->isVoidTy()) setReg(S, CB, ret);
+  if (!CB->getType()->isVoidTy()) { setReg(S, CB, ret); ++S.stack.back().ver[CB]; }
   ++S.stack.back().it;
 }
 
@@ -86,6 +130,7 @@ static bool applyContract(State &S, const CallBase *CB, const std::vector<Effect
     i128 olo, ohi; offsetBounds(S, p, olo, ohi);
     ByteCell any; any.cs.set(); any.prov = provByName(e.prov);
     eraseScalars(D, olo, ohi + nhi);
+    D.noteWrite(olo, ohi + std::min(nhi, (i128)1 << 40), false);
     i128 cap = (i128)1 << 40;
     if (olo == ohi) { D.fillRange(olo, olo + std::min(nlo, cap), any); if (nhi > nlo) D.joinRange(olo + nlo, olo + std::min(nhi, cap), any); }
     else D.joinRange(olo, ohi + std::min(nhi, cap), any);
@@ -94,6 +139,7 @@ static bool applyContract(State &S, const CallBase *CB, const std::vector<Effect
   return true;
 }
 
+void backpropPublic(State &S, const Value *V, const Val &nv);
 // ---- libc models ---------------------------------------------------------------
 bool modelCall(State &S, const CallBase *CB, const std::string &name, std::vector<State> &forks) {
   auto arg = [&](unsigned i) { return getVal(S, CB->getArgOperand(i)); };
@@ -136,6 +182,12 @@ bool modelCall(State &S, const CallBase *CB, const std::string &name, std::vecto
     i128 olo, ohi; offsetBounds(S, p, olo, ohi);
     if (R.isString && R.sizeRoot >= 0 && olo == ohi) { r = Val::top(64, P_OTHER); r.root = R.sizeRoot; r.rk = R.sizeK - 1 - olo; tighten(S, r); }
     else if (hi < 0 && !R.isString) alarm(S, "R", CB, "strlen: no terminating NUL inside the tracked part of " + R.name);
+    else if (hi >= 0 && lo != hi) {
+      // symbolise the unknown length so that `dst + len` and `size - len` stay related
+      Root nr; nr.name = "strlen@" + std::to_string(lineOf(CB)); nr.isUnsigned = true; nr.lo = lo; nr.hi = hi; nr.prov = 0;
+      S.roots.push_back(nr);
+      r.root = (int)S.roots.size() - 1; r.rk = 0;
+    }
     finishCall(S, CB, r); return true;
   }
   if (name == "strncmp" || name == "memcmp" || name == "strcmp") {
@@ -168,6 +220,27 @@ bool modelCall(State &S, const CallBase *CB, const std::string &name, std::vecto
       alarm(S, "MODEL", CB, "snprintf cannot be modelled: " + (ok ? why : std::string("format is not a constant string")));
       finishCall(S, CB, Val::top(32)); return true;
     }
+    if ((int64_t)alts.size() > CFG.fmtForkMax) {
+      // too many length alternatives: one merged result with per-position unions and a length range
+      size_t mn = SIZE_MAX, mx = 0;
+      for (auto &a : alts) { mn = std::min(mn, a.bytes.size()); mx = std::max(mx, a.bytes.size()); }
+      std::vector<ByteCell> cells(mx + 1);
+      for (auto &c : cells) { c.cs.reset(); c.prov = 0; }
+      for (auto &a : alts) {
+        for (size_t i = 0; i < a.bytes.size(); i++) joinCell(cells[i], a.bytes[i]);
+        cells[a.bytes.size()].cs.set(0);
+      }
+      Val sz = size; tighten(S, sz);
+      i128 slo = umin(sz), shi = umax(sz);
+      if (shi > 0) {
+        i128 nmax = std::min((i128)mx + 1, shi);
+        i128 strong = std::min((i128)mn, std::max((i128)0, slo - 1));
+        if (slo <= (i128)mx) for (i128 k = std::max((i128)0, slo - 1); k < nmax; k++) cells[(size_t)k].cs.set(0);
+        writeCells(S, dst, cells, strong, nmax, CB, "snprintf");
+      }
+      finishCall(S, CB, Val::range(32, ConstantRange::getNonEmpty(APInt(32, mn), APInt(32, mx) + 1), P_OTHER));
+      return true;
+    }
     bool firstDone = false;
     State base = S;
     for (size_t ai = 0; ai < alts.size(); ai++) {
@@ -177,6 +250,19 @@ bool modelCall(State &S, const CallBase *CB, const std::string &name, std::vecto
         Root &R = T.roots[std::get<0>(rf)];
         R.lo = std::max(R.lo, std::get<1>(rf)); R.hi = std::min(R.hi, std::get<2>(rf));
         if (R.lo > R.hi) feasible = false;
+      }
+      if (!feasible) continue;
+      for (auto &vr : alts[ai].vrefine) {
+        const Value *V = std::get<0>(vr);
+        Val cur = getVal(T, V);
+        if (cur.k != Val::INT) continue;
+        ConstantRange nr = ConstantRange::getNonEmpty(APInt(cur.w, (uint64_t)std::get<1>(vr)), APInt(cur.w, (uint64_t)std::get<2>(vr)) + 1);
+        ConstantRange x = cur.r.intersectWith(nr);
+        if (x.isEmptySet()) { feasible = false; break; }
+        cur.r = x; cur.kb = rangeKB(x); cur.hascs = false;
+        if (x.isSingleElement() && x.getSingleElement()->ule(255)) { cur.hascs = true; cur.cs.reset(); cur.cs.set((size_t)x.getSingleElement()->getZExtValue()); }
+        T.stack.back().regs[V] = cur;
+        backpropPublic(T, V, cur);
       }
       if (!feasible) continue;
       Val sz = size; tighten(T, sz);
@@ -503,22 +589,61 @@ static void enterBlock(State &S, BasicBlock *to) {
     if (!phi) break;
     vals.emplace_back(phi, getVal(S, phi->getIncomingValueForBlock(from)));
   }
-  for (auto &kv : vals) F.regs[kv.first] = kv.second;
+  for (auto &kv : vals) { F.regs[kv.first] = kv.second; ++F.ver[kv.first]; }
   F.prev = from; F.bb = to; F.it = to->getFirstNonPHI()->getIterator();
   F.visits[to]++;
+}
+
+// loop structure per function: header -> exiting blocks of the natural loop
+static std::map<const Function *, std::map<const BasicBlock *, std::vector<const BasicBlock *>>> LoopExits;
+static std::map<const BasicBlock *, std::set<const BasicBlock *>> LoopBlocks;     // header -> blocks of the loop
+static const std::vector<const BasicBlock *> *loopExiting(const BasicBlock *hdr) {
+  const Function *F = hdr->getParent();
+  auto it = LoopExits.find(F);
+  if (it == LoopExits.end()) {
+    auto &M2 = LoopExits[F];
+    DominatorTree DT(*const_cast<Function *>(F));
+    LoopInfo LI(DT);
+    SmallVector<Loop *, 16> work(LI.begin(), LI.end());
+    while (!work.empty()) {
+      Loop *L = work.pop_back_val();
+      for (Loop *Sub : L->getSubLoops()) work.push_back(Sub);
+      SmallVector<BasicBlock *, 8> ex; L->getExitingBlocks(ex);
+      auto &v = M2[L->getHeader()];
+      for (auto *b : ex) v.push_back(b);
+      auto &lb = LoopBlocks[L->getHeader()];
+      for (auto *b : L->blocks()) lb.insert(b);
+    }
+    it = LoopExits.find(F);
+  }
+  auto jt = it->second.find(hdr);
+  return jt == it->second.end() ? nullptr : &jt->second;
 }
 
 static bool seenBefore(State &S, BasicBlock *to);
 static bool enterBlockW(State &S, BasicBlock *to) {
   Frame &F0 = S.stack.back();
   BasicBlock *from = F0.bb;
+  // entering a loop from outside: its iteration bookkeeping starts afresh
+  loopExiting(to);
+  { auto lb = LoopBlocks.find(to);
+    if (lb != LoopBlocks.end() && !lb->second.count(from)) {
+      for (auto *b : lb->second) { F0.visits.erase(b); F0.forks.erase(b); F0.snaps.erase(b); }
+      F0.loopEntry[to] = S.steps;
+    } }
   bool hot = F0.forks[to] > CFG.widenAfter || F0.forks[from] > CFG.widenAfter;
+  if (!hot && F0.visits[to] > 0) {
+    if (auto *ex = loopExiting(to)) for (auto *b : *ex) if (F0.forks[b] > CFG.widenAfter) { hot = true; break; }
+  }
+  if (!hot && F0.visits[to] > 4 && LoopBlocks.count(to) && S.steps - F0.loopEntry[to] > CFG.longLoopSteps) hot = true;   // expensive loop body: summarise early
+  if (!hot && F0.visits[to] > CFG.longLoop) hot = true;      // very long (even if decided) loops are summarised by widening
   if (!hot && CFG.frameForkWiden > 0 && F0.visits[to] > 0) {
     // a loop header in a frame that has already forked many times on data (not on the loop test):
     // widen so that the per-iteration states converge instead of multiplying
     int tot = 0; for (auto &kv : F0.forks) tot += kv.second;
     if (tot > CFG.frameForkWiden) hot = true;
   }
+  if (hot && getenv("XAI_TRACE_HOT")) errs() << "[hot] " << to->getParent()->getName() << ":" << to->getName() << " from " << from->getName() << " forks[to]=" << F0.forks[to] << " forks[from]=" << F0.forks[from] << " visits=" << F0.visits[to] << "\n";
   enterBlock(S, to);
   if (!hot) {
     if (CFG.dedupe && S.fresh > 0 && to->hasNPredecessorsOrMore(2) && S.alarms.empty()) { S.fresh--; if (seenBefore(S, to)) { S.dedup = true; return false; } }
@@ -538,11 +663,13 @@ static bool enterBlockW(State &S, BasicBlock *to) {
   bool ptrHot = F.visits[to] > CFG.ptrWidenAfter;
   for (size_t i = 0; i < cur.size(); i++) {
     // pointer phis (buffer walks with a decided bound) are widened only after many iterations
-    Val w = (i < old.first.size() && (cur[i].k != Val::PTR || ptrHot)) ? widenVal(old.first[i], cur[i]) : cur[i];
+    // pointers and concretely counted integers keep their exact values until the loop has run for a while
+    bool exactCounter = cur[i].k == Val::PTR || (cur[i].k == Val::INT && cur[i].isConst() && i < old.first.size() && old.first[i].k == Val::INT && old.first[i].isConst());
+    Val w = (i < old.first.size() && (!exactCounter || ptrHot)) ? widenVal(old.first[i], cur[i]) : cur[i];
     if (i >= old.first.size() || !valEq(w, old.first[i])) same = false;
     wid.push_back(w);
   }
-  if (same) return false;     // fixpoint reached: an identical state was already continued from here
+  if (same) { if (getenv("XAI_TRACE_PRUNE")) errs() << "[prune] fixpoint at " << to->getParent()->getName() << ":" << to->getName() << " pathsteps=" << S.steps << "\n"; return false; }
   for (size_t i = 0; i < phis.size(); i++) F.regs[phis[i]] = wid[i];
   F.snaps[to] = {wid, mh};
   if (CFG.dedupe && S.alarms.empty() && seenBefore(S, to)) { S.dedup = true; return false; }
@@ -559,7 +686,9 @@ static bool seenBefore(State &S, BasicBlock *to) {
     for (const Value *v : liveIn(to)) { auto it = F.regs.find(v); if (it != F.regs.end()) errs() << " " << v->getName() << "=" << valHash(it->second) % 100000; }
     errs() << "\n";
   }
-  return !SeenStates.insert({to, h}).second;
+  bool seen = !SeenStates.insert({to, h}).second;
+  if (seen && getenv("XAI_TRACE_PRUNE")) errs() << "[prune] dedupe at " << to->getParent()->getName() << ":" << to->getName() << " pathsteps=" << S.steps << "\n";
+  return seen;
 }
 
 // back-propagate a refined value of V to the values it was computed from
@@ -603,6 +732,7 @@ static void backprop(State &S, const Value *V, const Val &nv, int depth = 0) {
   }
 }
 
+void backpropPublic(State &S, const Value *V, const Val &nv) { backprop(S, V, nv); }
 // refine the loaded memory cell when a branch tested a value loaded from a tracked byte
 static void refineLoadedCell(State &S, const Value *V, const Val &nv) {
   const Value *X = V;
@@ -736,9 +866,9 @@ struct Engine {
         int r = newRegion(S, std::string(F.F->getName()) + ":" + std::string(ai->getName()), RK_STACK, sz, sz);
         S.regions[r].frame = (int)S.stack.size();
         S.stack.back().allocas.push_back(r);
-        setReg(S, I, Val::ptr(r, 0)); ++S.stack.back().it; continue;
+        defReg(S, I, Val::ptr(r, 0)); ++S.stack.back().it; continue;
       }
-      if (auto *li = dyn_cast<LoadInst>(I)) { Val p = getVal(S, li->getPointerOperand()); setReg(S, I, doLoad(S, p, li->getType(), I)); ++S.stack.back().it; continue; }
+      if (auto *li = dyn_cast<LoadInst>(I)) { Val p = getVal(S, li->getPointerOperand()); defReg(S, I, doLoad(S, p, li->getType(), I)); ++S.stack.back().it; continue; }
       if (auto *si = dyn_cast<StoreInst>(I)) {
         Val p = getVal(S, si->getPointerOperand()), v = getVal(S, si->getValueOperand());
         doStore(S, p, v, (unsigned)DLp->getTypeStoreSize(si->getValueOperand()->getType()), I);
@@ -746,7 +876,7 @@ struct Engine {
       }
       if (auto *gep = dyn_cast<GetElementPtrInst>(I)) {
         Val p = getVal(S, gep->getPointerOperand());
-        if (p.k != Val::PTR) { setReg(S, I, Val::unk()); ++S.stack.back().it; continue; }
+        if (p.k != Val::PTR) { defReg(S, I, Val::unk()); ++S.stack.back().it; continue; }
         Type *cur = gep->getSourceElementType();
         bool first = true;
         for (unsigned k = 1; k < gep->getNumOperands(); k++) {
@@ -768,33 +898,33 @@ struct Engine {
             p = addOffset(S, p, idx, DLp->getTypeAllocSize(cur));
           } else if (auto *vt = dyn_cast<FixedVectorType>(cur)) { cur = vt->getElementType(); p = addOffset(S, p, idx, DLp->getTypeAllocSize(cur)); }
         }
-        setReg(S, I, p); ++S.stack.back().it; continue;
+        defReg(S, I, p); ++S.stack.back().it; continue;
       }
       if (auto *bo = dyn_cast<BinaryOperator>(I)) {
         int need;
         Val r = binop(S, bo->getOpcode(), getVal(S, bo->getOperand(0)), getVal(S, bo->getOperand(1)), need);
         if (need >= 0) { concretise(S, need); continue; }
-        setReg(S, I, r); ++S.stack.back().it; continue;
+        defPure(S, I, r); ++S.stack.back().it; continue;
       }
       if (auto *ci = dyn_cast<CastInst>(I)) {
         unsigned dw = ci->getType()->isIntegerTy() ? ci->getType()->getIntegerBitWidth() : 64;
-        setReg(S, I, castop(S, ci->getOpcode(), getVal(S, ci->getOperand(0)), dw, ci->getType())); ++S.stack.back().it; continue;
+        defPure(S, I, castop(S, ci->getOpcode(), getVal(S, ci->getOperand(0)), dw, ci->getType())); ++S.stack.back().it; continue;
       }
       if (auto *ic = dyn_cast<ICmpInst>(I)) {
         int t = icmpEval(S, ic->getPredicate(), getVal(S, ic->getOperand(0)), getVal(S, ic->getOperand(1)));
         Val r = t < 0 ? Val::top(1) : Val::cint(1, (uint64_t)t);
         Val a = getVal(S, ic->getOperand(0)), b = getVal(S, ic->getOperand(1));
         if (a.k == Val::INT) r.prov |= a.prov; if (b.k == Val::INT) r.prov |= b.prov;
-        setReg(S, I, r); ++S.stack.back().it; continue;
+        defReg(S, I, r); ++S.stack.back().it; continue;
       }
       if (auto *sel = dyn_cast<SelectInst>(I)) {
         Val c = getVal(S, sel->getCondition());
-        if (c.k == Val::INT && c.isConst()) { setReg(S, I, getVal(S, c.constVal().isZero() ? sel->getFalseValue() : sel->getTrueValue())); ++S.stack.back().it; continue; }
+        if (c.k == Val::INT && c.isConst()) { defReg(S, I, getVal(S, c.constVal().isZero() ? sel->getFalseValue() : sel->getTrueValue())); ++S.stack.back().it; continue; }
         // fork on the condition
         State T = S;
         bool f1 = assumeCond(S, sel->getCondition(), true), f0 = assumeCond(T, sel->getCondition(), false);
-        if (f0) { setReg(T, I, getVal(T, sel->getFalseValue())); ++T.stack.back().it; if (f1) work.push_back(std::move(T)); }
-        if (f1) { setReg(S, I, getVal(S, sel->getTrueValue())); ++S.stack.back().it; }
+        if (f0) { defReg(T, I, getVal(T, sel->getFalseValue())); ++T.stack.back().it; if (f1) work.push_back(std::move(T)); }
+        if (f1) { defReg(S, I, getVal(S, sel->getTrueValue())); ++S.stack.back().it; }
         else if (f0) { S = std::move(T); }
         else { S.aborted = true; S.abortMsg = "infeasible"; }
         continue;
@@ -882,7 +1012,7 @@ struct Engine {
         continue;
       }
       // anything else: unknown result
-      if (!I->getType()->isVoidTy()) setReg(S, I, I->getType()->isIntegerTy() ? Val::top(I->getType()->getIntegerBitWidth(), P_OTHER) : Val::unk());
+      if (!I->getType()->isVoidTy()) defReg(S, I, I->getType()->isIntegerTy() ? Val::top(I->getType()->getIntegerBitWidth(), P_OTHER) : Val::unk());
       ++S.stack.back().it;
     }
   }
